@@ -18,7 +18,7 @@ EXPLANATION = (
     "the MaxTime test and reports; (R4, thorough) DefaultSolver<f64>: Send and stream targets must be Send+Sync "
     "(compile-fail witness); (R5) P is normalised to its upper triangle and cones are collapsed before any other "
     "use; (R6) every solve re-initialises: info.reset and default_start precede the loop, each arm writes all of "
-    "x,s,z,tau,kappa, and set_identity_scaling wholly rewrites every scaling field the KKT update reads, and every cone's unit_initialization wholly overwrites both of its vectors on every path; (R7) the units premises: every stage keeps the data in the coordinates the equilibration records.")
+    "x,s,z,tau,kappa, and set_identity_scaling wholly rewrites every scaling field the KKT update reads, and every cone's unit_initialization wholly overwrites both of its vectors on every path; (R7) the units premises: every stage keeps the data in the coordinates the equilibration records; (R8) the LDL back ends agree on the value-update entry points (C08.R5 re-run); (R9) cone rectification of the equilibration (C10.R4 re-run).")
 ASSUMPTIONS = [
     'rustc MIR construction and trait resolution are correct',
     'IndexSet/IndexMap iterate in insertion order; Vec/slice iteration is ordered',
@@ -359,6 +359,14 @@ def run(ctx, rep, tier):
     # scaling is an exact change of variables that every reader undoes (C10.R1, C08.R3)
     from . import units_rules
     units_rules.premises(ctx, rep, 'C05.R7')
+    # "a different LDL back end gives the same verdict": the back ends agree on what the value-update entry points do to
+    # their own (permuted) copy of the KKT matrix (C08.R5 re-run), and every cone reports consistently whether its rows
+    # need a uniform scaling (C10.R4 re-run: "equilibration toggled" must not change the cone)
+    from . import c08, c04, c10
+    for cfg in CONFIGS:
+        tag = '' if cfg == 'default' else '[%s]' % cfg
+        c08.kkt_mirror(c04._Ren(rep, 'C08.R5', 'C05.R8'), ctx.facts(cfg), ctx.eff(cfg), ctx.cg(cfg), tag)
+        c10.rectification(c04._Ren(rep, 'C10.R4', 'C05.R9'), ctx.facts(cfg), tag)
     if tier == 'thorough':
         from . import witness
         witness.run(rep, 'C05.R4', ['send', 'stream_sync'])
